@@ -24,6 +24,20 @@ pub fn eval_server() -> &'static ppoprf::ppoprf::Server {
   SERVER.get_or_init(|| ppoprf::ppoprf::Server::new(vec![0u8, 1, 7, 255]).expect("server"))
 }
 
+static IMPORTED: OnceLock<ppoprf::ppoprf::Server> = OnceLock::new();
+
+/// created for tag 3 only, then synchronised from an instance registered for 0,1,7,255
+pub fn imported_server() -> &'static ppoprf::ppoprf::Server {
+  IMPORTED.get_or_init(|| {
+    let src = ppoprf::ppoprf::Server::new(vec![0u8, 1, 7, 255]).expect("server");
+    let mut dst = ppoprf::ppoprf::Server::new(vec![3u8]).expect("server");
+    let bytes = bincode::serialize(&src.get_private_key()).expect("export");
+    let st: ppoprf::ppoprf::ServerKeyState = bincode::deserialize(&bytes).expect("import");
+    dst.set_private_key(st);
+    dst
+  })
+}
+
 pub fn exec(c: &Case) -> Outcome {
   let b0: &[u8] = c.blobs.first().map(|b| &b[..]).unwrap_or(&[]);
   match c.target {
@@ -108,7 +122,8 @@ pub fn exec(c: &Case) -> Outcome {
       let p = ppoprf::ppoprf::Point::from(b0);
       let md = (c.num & 0xff) as u8;
       let ver = (c.num >> 8) & 1 == 1;
-      match eval_server().eval(&p, md, ver) {
+      let srv = if (c.num >> 9) & 1 == 1 { imported_server() } else { eval_server() };
+      match srv.eval(&p, md, ver) {
         Ok(e) => Outcome::Accepted(e.output.as_bytes().to_vec()),
         Err(_) => Outcome::Rejected,
       }
